@@ -178,6 +178,9 @@ func fetchPkgEnums(pa *packages.Package) enumsMap {
 		if !isNamed {
 			continue
 		}
+		if named.Obj().Pkg() != pa.Types {
+			continue // a constant of a type of another package : its members are those its own package declares
+		}
 		// per the spec, only basic types may be constant
 
 		comment := fetchConstComment(pa, decl)
